@@ -1792,8 +1792,11 @@ class MMSEIASolver(IterativeIASolverBaseClass):
                     # it, while the secant iterations of optimize.newton
                     # may diverge, stop at a negative value or stop where
                     # the cost is flat.
-                    max_mu_i = (np.linalg.norm(Hii_herm_U, 'fro') /
-                                np.sqrt(self.P[i]))
+                    # (twice that bound is used: at the bound itself the
+                    # cost is zero up to rounding when the power is very
+                    # small, and the bracket must have a sign change)
+                    max_mu_i = 2.0 * (np.linalg.norm(Hii_herm_U, 'fro') /
+                                      np.sqrt(self.P[i]))
                     mu_i = optimize.brentq(  # pylint: disable= E1101
                         func,
                         min_mu_i,
